@@ -542,3 +542,84 @@ class CacheReplayPairs(CacheReplay):
 
 
 CONTRACTS += [CacheReplay, CacheReplayPairs]
+
+
+class UnionNoReplay(LibModel):
+    """symbolic.Union._evaluate__ (the operator behind next_rule; or_ never builds it): ONE clause only (C05) - its result
+    cache holds truth values, not which operand an output came from, and a Next draws its conclusions by exactly that
+    (left_evaluated / right_evaluated), so a union that selects conclusions is evaluated and never replayed from its own
+    cache.  Everything else this function does is NOT under contract (its loops are skipped here; bounded families
+    'nextrule' and 'nextrule_nested' only)."""
+    qual = 'symbolic:Union._evaluate__'
+    cls = 'Union'
+    props = ('C05',)
+    modes = ('sound',)
+    trusted = ("the rest of Union._evaluate__ / evaluate_right is not under contract (bounded families nextrule, nextrule_nested)",)
+
+    def modenv(self):
+        return base_modenv()
+
+    def setup(self, eng):
+        sts = []
+        for given in (False, True):
+            st = State()
+            st.fields = init_fields()
+            self.n = z3.Const('self', Z.Node)
+            st.locals['self'] = ZV(self.n, 'node')
+            st.ghost['self'] = self.n
+            st.locals['sources'] = eng.new_dict(st, Z.ZMap.fresh('sources')) if given else NONE
+            st.locals['yield_when_false'] = ZV(z3.Const('ywf', Z.B), 'bool')
+            st.ghost['checked'] = 0
+            st.path.append(f"sources={'dict' if given else 'none'}")
+            sts.append(st)
+        return sts
+
+    def getattr(self, eng, st, recv, name):
+        if isinstance(recv, ZV) and recv.ty == 'node' and recv.t.eq(self.n) and name in ('left_evaluated', 'right_evaluated'):
+            return [(st, ZV(z3.FreshConst(Z.B, name), 'bool'))]
+        return super().getattr(eng, st, recv, name)
+
+    def setattr(self, eng, st, recv, name, v):
+        if isinstance(recv, ZV) and recv.ty == 'node' and recv.t.eq(self.n) and name in ('left_evaluated', 'right_evaluated'):
+            return [st]
+        return super().setattr(eng, st, recv, name, v)
+
+    def f_is_caching_enabled(self, eng, st, args, kwargs, node):
+        return [(st, ZV(z3.Const('caching_enabled', Z.B), 'bool'))]
+
+    def obj_cache_check(self, eng, st, recv, args, kwargs, node):
+        if recv.data.get('which') == '_cache_' and recv.data['of'].eq(self.n):
+            eng.oblige(st, f"C05/union@L{node.lineno}/a-conclusion-selecting-union-is-not-replayed-from-its-result-cache",
+                       z3.Not(Z.selects_conclusions(self.n)), line=node.lineno)
+        st = st.clone()
+        st.ghost['checked'] += 1
+        return [(st, ZV(z3.FreshConst(Z.B, 'covered'), 'bool'))]
+
+    def node_yield_final_output_from_cache(self, eng, st, recv, args, kwargs, node):
+        return [(st, Obj('replay', {}))]
+
+    def node__evaluate__(self, eng, st, recv, args, kwargs, node):
+        return [(st, Obj('skipped_stream', {}))]
+
+    def node_evaluate_right(self, eng, st, recv, args, kwargs, node):
+        return [(st, Obj('skipped_stream', {}))]
+
+    def yield_from(self, eng, st, src, ordinal, node):
+        return [Outcome(st)]
+
+    def abstract_loop(self, eng, st, s, it, ordinal):
+        if isinstance(it, Obj) and it.kind == 'skipped_stream':
+            return [Outcome(st)]          # not under contract (see the docstring)
+        return super().abstract_loop(eng, st, s, it, ordinal)
+
+    def on_yield(self, eng, st, v, ordinal, node):
+        return [st]
+
+    def on_exit(self, eng, o):
+        pass
+
+    def signature(self, ob, model):
+        return {}
+
+
+CONTRACTS += [UnionNoReplay]
